@@ -6,10 +6,21 @@
   made (`c14_propagates_*`), (2) every exception that leaves the public call is one a kernel reported (`c14_no_invention`), and
   (3) from ANY state — in particular the state an interrupted call left behind, at whatever point — a new `init(v); compute(args)`
   is observationally identical to the same calls on a solver that never saw the fault (`c14_recover`).
-  Kernel level (operator throws at its k-th application inside the Lanczos/Arnoldi recurrences): `Proofs`/`Properties` of the
-  factorization models, plus the exhaustive fault-index sweep of the correspondence check.
+  Kernel level (`Model/FaultOp.lean`: the Arnoldi/Lanczos kernels written once as computations over an operator that may fail):
+  with an operator that never fails they ARE the total models of C07/C05 (`c14_kernel_faultfree*`); if the k-th application
+  fails with `e` the kernel call ends with exactly `e`, makes no later application and leaves the operation counter at k-1
+  (`c14_kernel_propagates`, `c14_opcount_prefix`) — proved for EVERY computation over the operator, hence for every kernel, size,
+  input and fault index; lifted through `Orch.init`/`Orch.compute` to the whole solver for every fault index from 1 to the number
+  of applications of the fault-free run (`c14_propagates`).
+  Source facts regenerated on every run (`Gen.FaultFootprint`): no raw allocation and no try/catch in any function of the solver,
+  factorization and helper classes (`c14_no_leak`), `SparseRegularInverse::solve` is a conforming thrower (`c14_lib_thrower`).
 -/
 import SpectraVerif.Properties.C06
+import SpectraVerif.Properties.C12
+import SpectraVerif.Proofs.C14Orch
+import SpectraVerif.Gen.FaultFootprint
+
+set_option linter.unusedSectionVars false
 
 namespace C14
 open Orch
@@ -50,5 +61,127 @@ theorem c14_fault_keeps_status (sel : Int) (maxit : Nat) (tol : τ) (sorting : I
     (h : (compute K c sel maxit tol sorting s).out = .error e) :
     (compute K c sel maxit tol sorting s).st.info = s.info ∧ (compute K c sel maxit tol sorting s).st.niter = s.niter :=
   compute_error_info K c sel maxit tol sorting s e h
+
+/-! ### kernel level: operator that throws at its k-th application -/
+
+section kernel
+open FaultOp FaultOp.Prog Lin Arnoldi
+variable {α : Type} [Add α] [Sub α] [Mul α] [Div α] [Neg α] [Sc α]
+
+/-- **fault-free = the existing total models** (every computation over the operator): the run with an operator that never
+    fails returns the total evaluation, the counter advances by the number of applications, the operator sees the same vectors -/
+theorem c14_kernel_faultfree {β : Type} (A : Vec α → Vec α) (p : Prog α β) (c0 : Nat) :
+    p.runF (never A) c0 = ⟨.ok (p.evalT A), c0 + p.count A, p.log A⟩ :=
+  runF_never A p c0
+
+/-- … and the total evaluation of the fault-aware kernels is `Arnoldi.init`, `Arnoldi.expand_basis`, `Arnoldi.factorize_from`,
+    `Lanczos.factorize_from` of `Model/Arnoldi.lean` / `Model/Lanczos.lean` (the models tied bit-exactly to the C++ by C07/C05),
+    with the state's operation counter advanced by exactly the number of applications -/
+theorem c14_kernel_faultfree_models (op : Op α) (s : State α) (v0 : Vec α) (a b : Nat) (eps : α) (V : Mat α) (i : Nat) (seed : Int)
+    (f0 : Vec α) (fn0 : α) (ops0 : Nat) :
+    (initF op s v0).evalT op.A = Arnoldi.init op s v0 ∧
+    (expand_basisF op eps V i seed f0 fn0 ops0).evalT op.A = Arnoldi.expand_basis op eps V i seed f0 fn0 ops0 ∧
+    (arnoldiFactorizeF op s a b).evalT op.A = Arnoldi.factorize_from op s a b ∧
+    (lanczosFactorizeF op s a b).evalT op.A = Lanczos.factorize_from op s a b ∧
+    (∀ s', Arnoldi.init op s v0 = some s' → s'.ops = s.ops + (initF op s v0).count op.A) ∧
+    (∀ s', Arnoldi.factorize_from op s a b = some s' → s'.ops = s.ops + (arnoldiFactorizeF op s a b).count op.A) ∧
+    (∀ s', Lanczos.factorize_from op s a b = some s' → s'.ops = s.ops + (lanczosFactorizeF op s a b).count op.A) :=
+  ⟨initF_eval op s v0, expand_basisF_eval op eps V i seed f0 fn0 ops0, arnoldiFactorizeF_eval op s a b,
+    lanczosFactorizeF_eval op s a b, (initF_count op s v0).1, (arnoldiFactorizeF_count op s a b).1,
+    (lanczosFactorizeF_count op s a b).1⟩
+
+/-- … and so are the solver's kernels: `hermKernF` with an operator that never fails IS `HermSolver.hermKern` -/
+theorem c14_kernel_faultfree_solver (op : Op α) (c : Cfg) (eps23 : α) (back : α → α) :
+    hermKernF op (never op.A) c eps23 back = HermSolver.hermKern op c eps23 back :=
+  hermKernF_never op c eps23 back
+
+/-- **propagation at kernel level**, every computation `p` over the operator (in particular `initF`, `expand_basisF`, both
+    `factorizeF`, `restartFacF`), every start value `c0` of the application counter, every fault index `k` in the window of the
+    call (`c0 < k ≤ c0 + number of applications the fault-free call makes`): the call ends with exactly `e` — nothing is caught,
+    nothing else is thrown — and the vectors handed to the operator are the first `k - c0` of the fault-free call: no later
+    application is made -/
+theorem c14_kernel_propagates {β : Type} (A : Vec α → Vec α) (k : Nat) (e : Exn) (p : Prog α β) (c0 : Nat)
+    (h1 : c0 < k) (h2 : k ≤ c0 + p.count A) :
+    (p.runF (faultAt A k e) c0).out = .error e ∧
+    (p.runF (faultAt A k e) c0).entered = (p.log A).take (k - c0) ∧
+    (p.runF (faultAt A k e) c0).entered.length = k - c0 := by
+  rw [runF_faultAt_hit A k e p c0 h1 h2]
+  refine ⟨rfl, rfl, ?_⟩
+  simp only [List.length_take, log_length]
+  omega
+
+/-- **the counter passed by reference** holds `k - 1` when the exception of the `k`-th application leaves the call
+    (`op_counter++` follows `perform_op`), while the operator has been entered `k` times (previous theorem) -/
+theorem c14_opcount_prefix {β : Type} (A : Vec α → Vec α) (k : Nat) (e : Exn) (p : Prog α β) (c0 : Nat)
+    (h1 : c0 < k) (h2 : k ≤ c0 + p.count A) : (p.runF (faultAt A k e) c0).cnt = k - 1 := by
+  rw [runF_faultAt_hit A k e p c0 h1 h2]
+
+/-- a fault index outside the window of a call leaves the call exactly as the fault-free one -/
+theorem c14_kernel_unaffected {β : Type} (A : Vec α → Vec α) (k : Nat) (e : Exn) (p : Prog α β) (c0 : Nat)
+    (h : k ≤ c0 ∨ c0 + p.count A < k) : p.runF (faultAt A k e) c0 = p.runF (never A) c0 :=
+  runF_faultAt_miss A k e p c0 h
+
+/-- **propagation through the whole solver**: symmetric solver built from the fault-aware kernels, operator whose `k`-th
+    application since `init()` throws `e`, ANY object state `s` before the call, any arguments.  If the fault-free `init(v)`
+    succeeds and `1 ≤ k ≤` the number of applications of the fault-free `init(v); compute(args)` (its `num_operations()`),
+    then the faulted `init(v)` ends with `e`, or it returns normally and the faulted `compute(args)` ends with `e`. -/
+theorem c14_propagates (op : Op α) (c : Cfg) (eps23 : α) (back : α → α) (k : Nat) (e : Exn) (hk : 1 ≤ k)
+    (s : St (State α) α α (Vec α)) (v0 : Vec α) (sel : Int) (maxit : Nat) (tol : α) (sorting : Int)
+    (hinit : (init (HermSolver.hermKern op c eps23 back) c v0 s).2 = none)
+    (hK : k ≤ (compute (HermSolver.hermKern op c eps23 back) c sel maxit tol sorting
+      (init (HermSolver.hermKern op c eps23 back) c v0 s).1).st.nmatop) :
+    (init (hermKernF op (faultAt op.A k e) c eps23 back) c v0 s).2 = some e ∨
+    ((init (hermKernF op (faultAt op.A k e) c eps23 back) c v0 s).2 = none ∧
+      (compute (hermKernF op (faultAt op.A k e) c eps23 back) c sel maxit tol sorting
+        (init (hermKernF op (faultAt op.A k e) c eps23 back) c v0 s).1).out = .error e) := by
+  rw [hermKernF_eq]
+  exact init_compute_faulted _ c _ _ _ (hermKernF_faultedBy op c eps23 back k e hk) v0 sel maxit tol sorting s hinit hK
+
+/-- the same for EVERY kernel record (general solvers, generalized solvers, B-operator faults): kernels that agree with the
+    fault-free ones or report `e`, and never complete a `k`-th application -/
+theorem c14_propagates_any_kernels (fi : β → φ → FacRes φ) (fz : Nat → Nat → φ → FacRes φ) (rf : Nat → List ρ → φ → FacRes φ)
+    (cnt : φ → Nat) (k : Nat) (e : Exn) (hF : FaultedBy K fi fz rf cnt k e)
+    (s : St φ ρ ε κ) (v0 : β) (sel : Int) (maxit : Nat) (tol : τ) (sorting : Int)
+    (hinit : (init K c v0 s).2 = none) (hK : k ≤ (compute K c sel maxit tol sorting (init K c v0 s).1).st.nmatop) :
+    (init (withFac K fi fz rf) c v0 s).2 = some e ∨
+    ((init (withFac K fi fz rf) c v0 s).2 = none ∧
+      (compute (withFac K fi fz rf) c sel maxit tol sorting (init (withFac K fi fz rf) c v0 s).1).out = .error e) :=
+  init_compute_faulted K c fi fz rf hF v0 sel maxit tol sorting s hinit hK
+
+end kernel
+
+/-! ### nothing leaks, nothing swallows: source facts regenerated on every run -/
+
+open Gen.FaultFootprint in
+/-- in every function (constructors, destructors, all members) of every solver, factorization, decomposition and wrapper class
+    of namespace Spectra outside the contrib/Davidson families there is NO raw `new`/`delete`/`malloc`/`free` expression and
+    NO `try`/`catch`; every member function the property names was found and scanned; no `throw;` (rethrow) exists and every
+    thrown type is one of the three standard ones.  So every local of `restart`/`compute`/`factorize_from`/`expand_basis`/
+    `retrieve_ritzpair`/`sort_ritzpair` is an automatic object (unwinding destroys it: `c14_unwind_frees_all`), and nothing
+    between the operator and the caller can swallow the user's exception or replace it by another one. -/
+theorem c14_no_leak :
+    raw_alloc = [] ∧ try_catch = [] ∧ required_missing = [] ∧
+    (∀ t ∈ throws, t.2.2 = "std::invalid_argument" ∨ t.2.2 = "std::logic_error" ∨ t.2.2 = "std::runtime_error") ∧
+    scanned.length ≥ 40 := by decide
+
+/-- unwinding model (the one of C12): if every resource acquired before the throw point is owned by an automatic object,
+    nothing is live after unwinding, wherever the exception is raised -/
+theorem c14_unwind_frees_all (acts : List (C12.Own × Nat)) (h : ∀ a ∈ acts, a.1 = C12.Own.raii) (j : Nat) :
+    C12.leakedAt acts j = [] :=
+  C12.c12_no_raw_no_leak acts h j
+
+open Gen.FaultFootprint in
+/-- `SparseRegularInverse::solve` is a conforming thrower: it throws `std::runtime_error` exactly when CG did not converge,
+    returns normally otherwise, assigns no member but its own (mutable) status `m_info` (`Successful` / `NotConverging`), and no
+    solver/factorization class ever reads an operator's `info()` — so a failed solve leaves nothing behind the solver depends on -/
+theorem c14_lib_thrower :
+    (∀ ok, sri_solve_outcome ok = if ok then Res.ok () else Res.throw "std::runtime_error") ∧
+    (∀ ok, sri_solve_info ok = if ok then 0 else 2) ∧
+    sri_solve_assigned = ["m_info"] ∧ sri_mutable_members = ["m_info"] ∧ solver_reads_op_info = [] := by decide
+
+-- non-vacuity of the kernel-level hypotheses: a two-application computation, fault at the second application
+example : (((FaultOp.Prog.app #[(1 : Nat)] (fun y => FaultOp.Prog.app y (fun z => FaultOp.Prog.ret z.size))).runF
+    (FaultOp.faultAt (fun x => x.push 0) 2 (Exn.user 7)) 0).out = Except.error (Exn.user 7)) := rfl
+example : C12.leakedAt [(C12.Own.raii, 1), (C12.Own.raii, 2)] 1 = [] := by decide
 
 end C14
